@@ -119,6 +119,9 @@ def check_config(ift, config, r, env):
                     for nm, g in {"ducc": dd.fftn(A_(a + 0j), axes=(axn,)).val, "scipy": dd._scipy_fftn(A_(a + 0j), axes=(axn,)).val}.items():
                         if not np.allclose(g, reffp, rtol=1e-12, atol=1e-12):
                             out.append("back end %s: fftn along axis %d only differs from the specification" % (nm, axn))
+                    for nm, g in {"ducc": dd.ifftn(A_(reffp), axes=(axn,)).val, "scipy": dd._scipy_ifftn(A_(reffp), axes=(axn,)).val}.items():
+                        if g.shape != a.shape or not np.allclose(g, a, rtol=1e-12, atol=1e-12):
+                            out.append("back end %s: ifftn along axis %d only does not invert fftn along that axis" % (nm, axn))
             ac = a + 1j * a[::-1].reshape(shape) if len(shape) == 1 else a + 1j * a.T.reshape(shape) if a.T.shape == a.shape else a + 2j * a
             reff = (M @ ac.ravel()).reshape(shape) / S["vp"]
             for nm, g in {"ducc": dd.fftn(A_(ac)).val, "scipy": dd._scipy_fftn(A_(ac)).val}.items():
@@ -129,15 +132,22 @@ def check_config(ift, config, r, env):
                     out.append("back end %s: ifftn does not invert fftn" % nm)
         finally:
             config.update("hartley_convention", "non_canonical_hartley")
-    # the short names of the conventions select the same conventions as the long ones
-    for alias, conv in (("ducc_hartley", "non_canonical_hartley"), ("ducc_fht", "canonical_hartley")):
+    # the short names of the conventions select the same conventions as the long ones; configuration keys are not case sensitive
+    for alias, conv, key in (("ducc_hartley", "non_canonical_hartley", "hartley_convention"), ("ducc_fht", "canonical_hartley", "hartley_convention"),
+                             ("ducc_fht", "canonical_hartley", "HARTLEY_CONVENTION"), ("ducc_hartley", "non_canonical_hartley", "Hartley_Convention")):
         try:
-            config.update("hartley_convention", alias)
+            config.update("hartley_convention", "canonical_hartley" if conv == "non_canonical_hartley" else "non_canonical_hartley")
+            config.update(key, alias)
             if config._config.get("hartley_convention") != conv:
-                out.append("hartley_convention=%r selects %r, documented is %r" % (alias, config._config.get("hartley_convention"), conv))
+                out.append("update(%r, %r) selects %r, documented is %r" % (key, alias, config._config.get("hartley_convention"), conv))
             D = dense(ift, ift.HartleyOperator(sp), 1)
             if not np.allclose(D, S[conv][0], rtol=1e-12, atol=1e-13):
-                out.append("HartleyOperator with hartley_convention=%r does not follow the %s convention" % (alias, conv))
+                out.append("HartleyOperator after update(%r, %r) does not follow the %s convention" % (key, alias, conv))
+            try:
+                config.update(key, "no_such_convention")
+                out.append("update(%r, 'no_such_convention') is accepted" % key)
+            except ValueError:
+                pass
         finally:
             config.update("hartley_convention", "non_canonical_hartley")
     # transform on one sub-space of a product domain
